@@ -54,8 +54,8 @@ constexpr auto sqrt_check(T const x, T const mVal) noexcept -> T
                          // zeros keep their sign
             x == T(0) ? x
                       :
-                      // indistinguishable from one
-            etl::numeric_limits<T>::epsilon() > abs(T(1) - x) ? x
+                      // indistinguishable from one (a reduced argument carries the accumulated scale)
+            etl::numeric_limits<T>::epsilon() > abs(T(1) - x) ? mVal * x
                                                               :
                                                               // reduce the argument to [1/4, 4] by exact scalings with
                                                               // powers of four (the Newton iteration stops on an
